@@ -169,7 +169,7 @@ Theorem interest_roundtrip_thm nm cfg app sg si est e :
   let need := match app with Some _ => true | None => false end in
   let pre := strip_digest nm in
   let nm1 := if need then pre ++ [mkc 2 zeros32] else pre in
-  int_siginfo sg need = Ok (si, est) -> name_ok pre -> (app = None -> existsb is_digest_comp pre = false) ->
+  int_siginfo sg need = Ok (si, est) -> name_ok pre ->
   iconfig_ok cfg -> signer_ok sg -> signer_int_ok sg -> int_fits nm1 cfg app si est ->
   make_interest sha256 sign nm cfg app sg = Ok e ->
   exists svo, (est = 0 -> svo = None) /\ (0 < est -> sign (e_cov e) = svo /\ exists s, svo = Some s /\ blen s <= est) /\
@@ -179,7 +179,9 @@ Theorem interest_roundtrip_thm nm cfg app sg si est e :
       exists i cov, read_interest sha256 r = ROk i cov /\ obs_int i = expected_int (e_final e) cfg app sg svo /\
                     (0 < est -> concat cov = concat (e_cov e)).
 Proof.
-  intros need pre nm1 Hsi Hpre Hnod [Hfh Hlife] Hsg Hsgi Hfit Hmk.
+  intros need pre nm1 Hsi Hpre [Hfh Hlife] Hsg Hsgi Hfit Hmk.
+  assert (Hnod : app = None -> existsb is_digest_comp pre = false).
+  { intros ->. exact (make_interest_digest_free sha256 sign nm cfg sg e Hmk). }
   pose proof (int_siginfo_wf _ _ _ _ Hsi Hsg Hsgi) as Hsiwf. unfold int_fits in Hfit.
   assert (Hhead : head_wf (ic_fh cfg) (option_map (fun x => x mod 4294967296) (ic_nonce cfg)) (ic_life cfg)).
   { split; [exact Hfh|]. split; [|exact Hlife]. destruct (ic_nonce cfg); cbn; [apply N.mod_lt; lia|exact I]. }
@@ -243,7 +245,7 @@ Proof.
               mkIobs final (ic_cbp cfg) (ic_mbf cfg) (ic_fh cfg) (option_map (fun x => x mod 4294967296) (ic_nonce cfg)) (ic_life cfg)
                      (option_map (fun x => x mod 256) (ic_hop cfg)) None None None).
     { intros. unfold expected_int, int_si_of. unfold int_siginfo in *. destruct (sig_active sg); [discriminate|]. reflexivity. }
-    destruct (make_interest_noparams sha256 sha256_len sign nm cfg sg None 0 Hsi) as (W & E & HW); [unfold two64; fold pre; lia|].
+    destruct (make_interest_noparams sha256 sha256_len sign nm cfg sg None 0 Hsi (Hnod eq_refl)) as (W & E & HW); [unfold two64; fold pre; lia|].
     rewrite E in Hmk. inversion Hmk; subst e. cbn [e_wire e_cov e_final]. fold pre.
     exists None. split; [reflexivity|]. split; [lia|]. split; [reflexivity|]. split; [exact HW|].
     intros r V. rewrite HW in V. fold pre in V.
@@ -266,7 +268,7 @@ Corollary interest_any_reader nm cfg app sg si est e :
   let need := match app with Some _ => true | None => false end in
   let pre := strip_digest nm in
   let nm1 := if need then pre ++ [mkc 2 zeros32] else pre in
-  int_siginfo sg need = Ok (si, est) -> name_ok pre -> (app = None -> existsb is_digest_comp pre = false) ->
+  int_siginfo sg need = Ok (si, est) -> name_ok pre ->
   iconfig_ok cfg -> signer_ok sg -> signer_int_ok sg -> int_fits nm1 cfg app si est ->
   make_interest sha256 sign nm cfg app sg = Ok e ->
   exists svo, forall segs, concat segs = concat (e_wire e) ->
@@ -275,8 +277,8 @@ Corollary interest_any_reader nm cfg app sg si est e :
       obs_int i1 = expected_int (e_final e) cfg app sg svo /\ obs_int i2 = expected_int (e_final e) cfg app sg svo /\
       (0 < est -> concat c1 = concat (e_cov e) /\ concat c2 = concat (e_cov e)).
 Proof.
-  intros need pre nm1 Hsi Hn Hnod Hcfg Hsg Hsgi Hfit Hmk.
-  destruct (interest_roundtrip_thm sha256 sha256_len sign nm cfg app sg si est e Hsi Hn Hnod Hcfg Hsg Hsgi Hfit Hmk)
+  intros need pre nm1 Hsi Hn Hcfg Hsg Hsgi Hfit Hmk.
+  destruct (interest_roundtrip_thm sha256 sha256_len sign nm cfg app sg si est e Hsi Hn Hcfg Hsg Hsgi Hfit Hmk)
     as (svo & _ & _ & _ & _ & Hr).
   exists svo. intros segs Hs.
   destruct (Hr (BR (concat segs) 0)) as (i1 & c1 & E1 & O1 & C1); [rewrite <- Hs; apply view_br; simpl; lia|].
